@@ -49,12 +49,14 @@ def _gap(x, i, side):
     return x[i + 1] - x[i] if i < len(x) - 1 else None
 
 
-def gen_case(rng, max_m=1000, small=False, weaver=False, large=False):
+def gen_case(rng, max_m=1000, small=False, weaver=False, large=False, huge=False):
     """Build one admissible matching problem.  Returns a dict with everything needed to call the code.
     large: a week of hourly averages against minute samples - thousands of samples x a hundred or more reference
     points (len(x) * len(x_ref) well above 2**20), the sizes the library is used at"""
     many = 0
-    if large:
+    if huge:            # a day of per-second samples matched against a handful of reference points
+        m = int(rng.integers(66000, 90001))
+    elif large:
         many = int(rng.integers(70, 261))
         m = int(rng.integers(max(5000, int(1.1 * 2 ** 20 / many)), 18001))
     elif small:
